@@ -441,6 +441,14 @@ def wrap(x, signed, n_word):
         
     return x
 
+def scale_raw(x, n_shift):
+    # raw (integer) value(s) scaled by 2**n_shift; python integers are used if the result does not fit in a signed 64 bits integer
+    x = np.asarray(x)
+    if n_shift > 0 and x.dtype.kind in 'iu' and x.size > 0:
+        if max(abs(int(np.max(x))), abs(int(np.min(x)))).bit_length() + n_shift >= 63:
+            return np.array(x.astype(object) * 2**n_shift, dtype=object)
+    return x * 2**n_shift
+
 def get_sizes_from_dtype(dtype):
     if isinstance(dtype, str):
         head, props = dtype.split('-', 1)
